@@ -152,6 +152,7 @@ def C04(chk):
     profiles_mc(chk, "nfc-marks", ["e", "acute", "vlb", "tone", "cedil", "Eac", "A"], n, profs, ["enforce"], (0,))
     profiles_mc(chk, "nfc-bidi", ["heb", "hpt", "a", "d1", "aid", "eaid", "arab", "fatha", "dot"], n, profs, ops, insts)
     profiles_mc(chk, "context-case", ["l", "mdot", "A", "grk", "GRK", "keraia", "ZWJ", "vir", "deva"], n, profs, ops, insts)
+    profiles_mc(chk, "context-joiners", ["ZWNJ", "ZWJ", "vir", "acute", "deva", "arab", "alef", "a", "A"], n, profs, ops, (0,))
     profiles_mc(chk, "framed", ["A", "FWA", "Eac", "acute", "heb", "hpt", "aid", "d1", "mdot", "l"], 0, profs, ["enforce"], (0,),
                 invariants=["Agree", "NoDrift"], frame=(8, 2, 1, ("a", "eac")) if q else (9, 4, 2, ("a", "eac")))
     apply_l1(chk, ["wm", "lc1", "lc3", "lc4", "bidi", "pp"], nontrivial_key="runs")
@@ -165,8 +166,8 @@ def C04(chk):
         import selftest
         chk.notes.append("binding self-test: " + selftest.selftest_l3())
     chk.cov["exhaustive"] = True
-    chk.cov["rule"] = ("every string of length <= %d over four 9-role alphabets (width x validation x case, case x NFC, NFC x bidi, "
-                       "context x case), canonical instance plus %d seeded random instances of the same roles; both username profiles, "
+    chk.cov["rule"] = ("every string of length <= %d over five 9-role alphabets (width x validation x case, case x NFC, NFC x bidi, "
+                       "context x case, joiners x virama x transparent marks x joining letters), canonical instance plus %d seeded random instances of the same roles; both username profiles, "
                        "prepare and enforce; the pipeline machine is checked step by step by TLC (Agree, PrepareFailurePropagates, "
                        "NoDrift, OutputClean, ...) and every behaviour is replayed into the real API, result and error payload compared; "
                        "non-trivial = behaviours with more than one pipeline step executed" % (n, len(insts) - 1))
